@@ -559,6 +559,13 @@ func (r *Run) Probe(id string, input any, reproduces func() string) {
 	r.labels["probe-runs"]++
 	r.mu.Unlock()
 	if what == "" {
+		if IsKnown(id) {
+			// listed as known but the probe is silent: the entry may be stale (informational)
+			r.mu.Lock()
+			r.labels["known-finding-probe-silent:"+id]++
+			r.mu.Unlock()
+			fmt.Fprintf(os.Stderr, "NOTE: known finding %s: its probe does not reproduce on this tree\n", id)
+		}
 		return
 	}
 	if IsKnown(id) {
